@@ -46,18 +46,18 @@ def explain(ev, b):
 
 
 def run(ctx, replay):
-    wide = config(ALL_LEVELS, 2, ["Set", "With", "New", "NewDetached", "PkgSetLevel", "SetDefault"])
+    wide = config(ALL_LEVELS, 2, ["Set", "With", "New", "NewDetached", "PkgSetLevel", "SetDefault", "DbgMode"])
     if replay:
         return corelib.replay_core(ctx, replay, wide, OBS)
     inv = ["GateAgrees", "TreeOK"]
     props = ["DbgSticky", "Isolation"]
     # (a) one logger, every level value: every (logger level, debug mode) pair, whole gate table each
-    corelib.run_core(ctx, config(ALL_LEVELS, 1, ["Set"]), inv, props, OBS, rand_count=0, rand_depth=0, rand_loggers=1,
+    corelib.run_core(ctx, config(ALL_LEVELS, 1, ["Set", "DbgMode"]), inv, props, OBS, rand_count=0, rand_depth=0, rand_loggers=1,
                      tag="one", key_fn=explain)
     # (b) two loggers (default + child): debug mode switched on through either of them or through the
     #     package-level SetLevel, observed on both
     lv2 = [5, 4, 7] if ctx.quick() else [5, 4, 7, 8, 2, 13]
-    corelib.run_core(ctx, config(lv2, 2, ["Set", "With", "PkgSetLevel"]), inv, props, OBS,
+    corelib.run_core(ctx, config(lv2, 2, ["Set", "With", "PkgSetLevel", "DbgMode"]), inv, props, OBS,
                      rand_count=15 if ctx.quick() else 150, rand_depth=12 if ctx.quick() else 25,
                      rand_loggers=4 if ctx.quick() else 6, rand_cfg=wide, tag="two", key_fn=explain)
     ctx.assumptions += ["custom levels are registered once at process start (registration histories are C17)",
